@@ -105,3 +105,26 @@ Section Destructor.
     if std_is_reference t then true
     else std_is_destructible t && dtor_noexcept (std_remove_all_extents t).
 End Destructor.
+
+(** * is_convertible: two SFINAE tests and the void/void clause *)
+(* what the library decides itself, and the question it passes to the compiler:
+   (test_returnable<To> && test_nonvoid_convertible<From, To>) || (is_void_v<From> && is_void_v<To>) *)
+Inductive cres := CFalse | CTrue | CAsk.         (* CAsk: is declval<void (&)(To)>()(declval<From>()) well-formed *)
+(* test_returnable<To>: can the function type To() be formed ([dcl.fct]: not an array, not a function) *)
+Definition returnable_m (t : cty) : bool := negb (is_arr_ty t) && negb (is_fn_ty t).
+Definition is_convertible_q (from to : cty) : cres :=
+  if is_void_m from && is_void_m to then CTrue          (* the disjunction's second operand *)
+  else if returnable_m to then CAsk else CFalse.
+(* [meta.rel]: "To test() { return declval<From>(); }" is well-formed *)
+Definition std_is_convertible_q (from to : cty) : cres :=
+  if std_is_void to then (if std_is_void from then CTrue else CFalse)
+  else if std_is_array to || std_is_function to then CFalse
+  else CAsk.
+
+Section Conversion.
+  Variable call_ok : cty -> cty -> bool.     (* declval<void (&)(To)>()(declval<From>()) is well-formed *)
+  Definition eval_cres (from to : cty) (r : cres) : bool :=
+    match r with CFalse => false | CTrue => true | CAsk => call_ok from to end.
+  Definition is_convertible_m (from to : cty) : bool := eval_cres from to (is_convertible_q from to).
+  Definition std_is_convertible (from to : cty) : bool := eval_cres from to (std_is_convertible_q from to).
+End Conversion.
